@@ -144,6 +144,31 @@ CHECKS["C03"] = dict(
     technique="TLA+ Store.tla / Relay.tla invariants evaluated by TLC on recorded submissions of forged variants (independent authenticity oracle)")
 CHECKS["C03"]["level_override"] = "exploration"
 
+CHECKS["C10"] = dict(
+    cat="model_checking", ref="DESIGN.md §5 C10",
+    note=("Trusted: TLC; liblmdb 0.9.31 through the ctypes shim (the B+tree, MVCC and cursor semantics are the real library's); "
+          "the decoder of real keys into abstract keys (harness/kvproj.py: by prefix byte, fixed-width fields, the universe's own "
+          "name NUL value byte strings; anything else is a garbage key and counts as dangling). Bounds: one 12-event universe, "
+          "histories to depth 3/4, with and without writer lag."),
+    text=("KvIndex.tla defines the image of a record (primary key, created_at, kind, author, author+kind, one key per indexable "
+          "tag with str(value)) and transcribes the writer's put/delete sequence for add / replace / delete inside one transaction "
+          "that can abort at every operation; TLC checks C10_Coherent exhaustively (MC_KvIndex). On the real LMDBStorage every key "
+          "of the environment is decoded after every writer step and every collection of TLC-generated histories and TLC evaluates "
+          "keys = sentinel + union of images of the stored records, reporting dangling, missing and foreign-value entries."),
+    technique="TLA+ KvIndex.tla model-checked by TLC; full keyspace dumps after every step of TLC-generated histories validated by TLC (KvIndex_Trace.tla)")
+CHECKS["C07"] = dict(
+    cat="fault_enumeration", ref="DESIGN.md §5 C07",
+    note=("Trusted: TLC; SQLite (WAL, as configured by the relay's own pragmas) and liblmdb as the crash-atomic engines; the fault "
+          "points are the shim's put/delete/commit hook (LMDB) and a SQLAlchemy cursor/commit listener (SQL), both harness-side. A "
+          "process kill is os._exit(137) in a forked child at the chosen mutation, the parent reopening the files; power loss / "
+          "fsync behaviour is not modelled. PostgreSQL is not exercisable here."),
+    text=("For every event of every TLC-generated history, every storage mutation of its application (k-th SQL statement incl. "
+          "COMMIT, k-th LMDB put/delete incl. commit) gets (i) an injected engine error, after which an independent probe event "
+          "must still be applied, and (ii) a process kill followed by reopening. TLC judges every resulting full dump "
+          "(KvIndex_Trace.tla): it must be coherent and equal either to the dump before the event or to the dump of the fault-free "
+          "run after it (C07_Atomic), and the probe must be present (C07_LaterEventsProceed)."),
+    technique="fault enumeration over every storage mutation (engine error in-process, process kill in a forked child + reopen); dumps judged by TLC against KvIndex.tla")
+
 NOT_YET = {}
 
 
